@@ -97,6 +97,8 @@ func init() {
 		want := e.reachWanted[lbl] < 12 && !e.reachSat[lbl]
 		if want {
 			e.reachWanted[lbl]++
+		} else if !e.reachSat[lbl] && len(e.reachLater[lbl]) < 600 {
+			e.reachLater[lbl] = append(e.reachLater[lbl], &State{ID: s.ID, PC: append([]string{}, s.PC...), Choices: append([]int{}, s.Choices...)})
 		}
 		e.mu.Unlock()
 		if want {
@@ -175,6 +177,8 @@ func init() {
 			e.noMerge = true
 		case "no-region-merge":
 			e.noRegion = true
+		case "thorough-only":
+			// the harness returns at once in the quick tier: its witnesses are reported as not run
 		case "havoc-arith":
 			e.havocArith = true
 		default:
